@@ -533,8 +533,9 @@ type FuncSpec struct {
 	Uses            []string
 	Splits          []*SplitSpec
 	Asserts         []*Clause
-	CallAsserts     []*CallAssert // before / after <callee>[#n]: assertions anchored at a call site
-	Only            []string      // partial contract: only obligations whose name contains one of these are claimed
+	CallAsserts     []*CallAssert       // before / after <callee>[#n]: assertions anchored at a call site
+	Only            []string            // partial contract: only obligations whose name contains one of these are claimed
+	ClauseProps     map[string][]string // props_of <clause name> <props...>: the obligation of that clause carries these properties instead of the function's
 	NoPanicOff      bool
 	Implementations bool // contract on an interface method, checked against every implementation
 	Reveal          []string
@@ -617,7 +618,7 @@ var clauseKW = map[string]bool{
 	"modifies": true, "loop": true, "invariant": true, "decreases": true, "safe": true,
 	"nowrap": true, "wrapok": true, "inline": true, "trusted": true, "uses": true, "split": true, "props": true,
 	"axiom": true, "induction": true, "guarded_by": true, "pure": true, "assert": true, "timeout": true,
-	"trigger": true, "abstract": true, "opaque": true, "reveal": true, "implementations": true, "body_ensures": true, "body_returns": true, "lock_property": true, "init_only": true, "write_guarded_by": true, "before": true, "after": true, "only": true,
+	"trigger": true, "abstract": true, "opaque": true, "reveal": true, "implementations": true, "body_ensures": true, "body_returns": true, "lock_property": true, "init_only": true, "write_guarded_by": true, "before": true, "after": true, "only": true, "props_of": true,
 }
 
 func splitName(rest string) (name, body string) {
@@ -888,6 +889,18 @@ func (sf *SpecFile) Load(path, pkg string) (err error) {
 				return fmt.Errorf("%s:%d: assert outside func", path, rc.line)
 			}
 			cur.Asserts = append(cur.Asserts, mk())
+		case "props_of":
+			if cur == nil {
+				return fmt.Errorf("%s:%d: props_of outside func", path, rc.line)
+			}
+			f := strings.Fields(rc.rest)
+			if len(f) < 2 {
+				return fmt.Errorf("%s:%d: props_of <clause name> <properties>", path, rc.line)
+			}
+			if cur.ClauseProps == nil {
+				cur.ClauseProps = map[string][]string{}
+			}
+			cur.ClauseProps[f[0]] = f[1:]
 		case "only":
 			if cur == nil {
 				return fmt.Errorf("%s:%d: only outside func", path, rc.line)
